@@ -405,6 +405,54 @@ Definition spec_exchange (cli srv : spec) (m : msg) : msg_result :=
   | MPush hid => exchange_push (spec_global cli) (spec_global srv) (spec_lookup srv KPush hid)
   end.
 
+(* ---- the documented stage order (doc comments of the interfaces in plugin.go) ---- *)
+Definition seq_call_caller : list stage :=
+  [PreWriteCall; PostWriteCall; PostReadReplyHeader; PreReadReplyBody; PostReadReplyBody].
+Definition seq_call_callee : list stage :=
+  [PostReadCallHeader; PreReadCallBody; PostReadCallBody; PreWriteReply; PostWriteReply].
+Definition seq_push_sender : list stage := [PreWritePush; PostWritePush].
+Definition seq_push_receiver : list stage := [PostReadPushHeader; PreReadPushBody; PostReadPushBody].
+
+Definition caller_seq (m : msg) : list stage :=
+  match m with MCall _ => seq_call_caller | MPush _ => seq_push_sender end.
+Definition callee_seq (m : msg) : list stage :=
+  match m with MCall _ => seq_call_callee | MPush _ => seq_push_receiver end.
+
+(* one rank consistent with all four sequences: write, then read header/body, then reply *)
+Definition stage_rank (s : stage) : nat :=
+  match s with
+  | PreWriteCall | PreWritePush => 0
+  | PostWriteCall | PostWritePush => 1
+  | PreReadHeader => 2
+  | PostReadCallHeader | PostReadPushHeader | PostReadReplyHeader => 3
+  | PreReadCallBody | PreReadPushBody | PreReadReplyBody => 4
+  | PostReadCallBody | PostReadPushBody | PostReadReplyBody => 5
+  | PreWriteReply => 6
+  | PostWriteReply => 7
+  end.
+
+(* stages whose hooks run before the handler and whose refusal must keep it from running *)
+Definition pre_handler (s : stage) : bool :=
+  match s with
+  | PreWriteCall | PreWritePush | PreReadHeader
+  | PostReadCallHeader | PreReadCallBody | PostReadCallBody
+  | PostReadPushHeader | PreReadPushBody | PostReadPushBody => true
+  | _ => false
+  end.
+
+(* the pre-handler stages on the handling side of a CALL that answer with a status *)
+Definition callee_status_stage (s : stage) : bool :=
+  match s with PostReadCallHeader | PreReadCallBody | PostReadCallBody => true | _ => false end.
+(* the caller-side stages whose refusal becomes the status of the call *)
+Definition caller_status_stage (s : stage) : bool :=
+  match s with
+  | PreWriteCall | PreWritePush | PostReadReplyHeader | PreReadReplyBody | PostReadReplyBody => true
+  | _ => false
+  end.
+
+Definition msg_kind (m : msg) : kind := match m with MCall _ => KCall | MPush _ => KPush end.
+Definition msg_target (m : msg) : N := match m with MCall h => h | MPush h => h end.
+
 (* ====================== part 3: the pinned tree (pre-fix), with Go slices ====================== *)
 
 (* runtime.growslice for 16-byte pointerful elements (interface values), go1.23:
